@@ -121,7 +121,7 @@ def path_model_must_fail(tier, seed):
     native = {"d": d, "x": x, "old_test": old_test(d, x), "new_test": new_test(d, x), "ancestor": anc(d, x)}
     if ob.status == "sat" and native["ancestor"] and not native["old_test"] and native["new_test"]:
         out["discharged"] = 1
-        out["samples"].append({"obligation": oid, "expected": "counter-model", "solver_model": model_text(ob.model, rep.inputs),
+        out["samples"].append({"obligation": oid, "expected": "counter-model", "solver_model": dict(model_text(ob.model, rep.inputs), model=str(ob.model)[:300]),
                                "native_instance": native, "time_s": round(ob.time_s, 3)})
     else:
         out["undecided"].append({"function": "lemma:L_old_test_is_ancestor__MUST_FAIL", "obligation": oid,
